@@ -163,6 +163,124 @@ def _run(ops, preempt, picks):
     return ""
 
 
+class _InlineTasks:
+    class F:
+        def add_done_callback(self, cb):
+            cb(self)
+
+        def exception(self):
+            return None
+
+    def submit_task(self, task, *args):
+        task(*args)
+        return _InlineTasks.F()
+
+
+POLL_OPS = [0, 1, 2, 3, 4, 5, 8]
+
+
+def timer_loop(a1: int, a2: int, a3: int, a4: int, n: int) -> str:
+    """
+    The REAL polling loop (RepeatedTimer._target around the real LongPoll.poll, updates applied inline): polls that fail
+    in any way (service unavailable, unintelligible answer, unconvertible UPDATE) neither end the loop nor change what is
+    installed / reported; every scheduled poll is made and the last UPDATE wins.
+    PRE: 0 <= a1 <= 6 and 0 <= a2 <= 6 and 0 <= a3 <= 6 and 0 <= a4 <= 6 and 1 <= n <= 4
+    PRE: n >= 4 or a4 == 0
+    PRE: n >= 3 or a3 == 0
+    PRE: n >= 2 or a2 == 0
+    POST: _ == ""
+    """
+    world.begin_path()
+    import deep.poll.poll as pp
+    import deep.utils as du
+    from deep.poll.poll import LongPoll
+    from deep.utils import RepeatedTimer
+    from deepproto.proto.poll.v1.poll_pb2 import PollResponse, ResponseType
+    from deepproto.proto.tracepoint.v1.tracepoint_pb2 import TracePointConfig, Metric
+    from vlib.world import World
+    v = [world.realize(x) for x in (a1, a2, a3, a4, n)]
+    ops = [POLL_OPS[i] for i in v[:4][:v[4]]]
+    w = World()
+    w.tps.set_task_handler(_InlineTasks())
+    requests, script = [], []
+    model = {"hash": "", "service": []}
+    for op in ops:
+        if op <= 2:
+            h, tpl = CONFIGS[op]
+            script.append(PollResponse(ts_nanos=5, current_hash=h, response_type=ResponseType.UPDATE, response=[_pb_tp(i, ln) for (i, ln) in tpl]))
+            model["hash"], model["service"] = h, [i for (i, _) in tpl]
+        elif op == 3:
+            script.append("nochange")
+        elif op == 4:
+            script.append("raise")
+        elif op == 5:
+            script.append(object())
+        else:
+            bad = TracePointConfig(ID="X1", path="f.py", line_number=7, args={"fire_count": "-1"}, watches=[], metrics=[Metric(name="m", type=99)])
+            script.append(PollResponse(ts_nanos=7, current_hash="hX", response_type=ResponseType.UPDATE, response=[_pb_tp("X0", 7), bad]))
+    script.append("nochange")       # one more poll to observe the reported hash
+    total = len(script)
+
+    class Stub:
+        def __init__(self, channel):
+            pass
+
+        def poll(self, request, metadata=None):
+            requests.append(request.current_hash)
+            r = script.pop(0)
+            if r == "raise":
+                raise RuntimeError("service unavailable")
+            if r == "nochange":
+                return PollResponse(ts_nanos=6, current_hash=request.current_hash, response_type=ResponseType.NO_CHANGE)
+            return r
+
+    class FakeGrpc:
+        channel = None
+
+        def metadata(self):
+            return []
+
+    class ScriptedEvent:
+        """Event.wait(timeout) of the timer: 'not stopped' once per scheduled poll, then 'stopped'."""
+        def __init__(self, rounds):
+            self.rounds = rounds
+
+        def wait(self, timeout=None):
+            self.rounds -= 1
+            return self.rounds < 0
+
+        def set(self):
+            self.rounds = -1
+    real_stub, real_time = pp.PollConfigStub, pp.time_ns
+    pp.PollConfigStub, pp.time_ns = Stub, (lambda: 1)
+    try:
+        lp = LongPoll(w.config, FakeGrpc())
+        timer = RepeatedTimer.__new__(RepeatedTimer)
+        timer.name, timer.interval, timer.function, timer.args, timer.kwargs = "poll", 10, lp.poll, (), {}
+        timer.start_ts = 0
+        timer.event = ScriptedEvent(total)
+        real_du_time = du.time
+        du.time = types.SimpleNamespace(time=lambda: 3.0)
+        try:
+            timer._target()            # the timer thread's body, run to its end
+        except Exception as e:
+            world.reached()
+            return "C12:timer:polling-loop-ended-by-" + type(e).__name__
+        finally:
+            du.time = real_du_time
+    finally:
+        pp.PollConfigStub, pp.time_ns = real_stub, real_time
+    world.reached()
+    if len(requests) != total:
+        return "C12:timer:scheduled-poll-not-made"
+    installed = sorted(a.id for t in w.handler._tp_config for a in t.actions)
+    if requests[-1] != model["hash"]:
+        return "C12:timer:reported-hash-is-not-the-latest-configuration's"
+    if installed != sorted(model["service"]):
+        return "C12:timer:installed-set-is-not-the-latest-configuration"
+    return ""
+
+
 def converge(o1: int, o2: int, o3: int, o4: int, n: int, p1: int, t1: int, k1: int, k2: int) -> str:
     """
     Histories of up to 4 operations (poll -> UPDATE to one of three configurations / NO_CHANGE / raises / unintelligible,
@@ -251,7 +369,16 @@ def _mut_captured_config():
     _stepped()
 
 
-MUTANTS = {"captured_config": _mut_captured_config, "hash_not_stored": _mut_hash_not_stored, "no_change_clears": _mut_no_change_clears, "custom_dropped_on_update": _mut_custom_dropped_on_update}
+def _mut_timer_dies():
+    from deep.utils import RepeatedTimer
+
+    def _target(self):
+        while not self.event.wait(self._time):
+            self.function(*self.args, **self.kwargs)
+    RepeatedTimer._target = _target
+
+
+MUTANTS = {"timer_dies": _mut_timer_dies, "captured_config": _mut_captured_config, "hash_not_stored": _mut_hash_not_stored, "no_change_clears": _mut_no_change_clears, "custom_dropped_on_update": _mut_custom_dropped_on_update}
 
 if not _CACHE:
     try:
@@ -260,6 +387,10 @@ if not _CACHE:
         pass
 
 CONDITIONS = [
+    dict(fn="timer_loop", cubes=["n == %d and a1 == %d" % (k, a) for k in (1, 2, 3) for a in range(7)] + ["n == 4 and a1 == %d and a2 == %d" % (a, b) for a in (0, 4, 6) for b in (1, 4, 5, 6)],
+         twins=["reach", "mutant:timer_dies@n == 2 and a1 == 4"],
+         bounds="the real RepeatedTimer._target loop (scripted Event) around the real LongPoll.poll, updates applied inline: every history of 1-3 polls over 7 answers "
+                "(UPDATE x3, NO_CHANGE, raises, unintelligible, unconvertible UPDATE), 12 first pairs of histories of 4"),
     dict(fn="converge2", cubes={"quick": ["o1 == %d and o2 == %d and %s" % (a, b, r) for (a, b) in ((0, 1), (0, 6)) for r in ("p1 <= 16 and d <= 10", "16 < p1 <= 32 and d <= 10", "32 < p1 <= 48 and d <= 10")],
                                 "thorough": ["o1 == %d and o2 == %d and %s" % (a, b, r) for a in (0, 6, 7) for b in (0, 1, 3, 6, 7) for r in ("p1 <= 20", "20 < p1 <= 34", "34 < p1 <= 48", "p1 > 48")]},
          twins=["reach"], timeout={"quick": 240, "thorough": 900},
